@@ -86,6 +86,11 @@ impl BackendInternal {
         &mut self,
         hdr: &VhostUserGpuMsgHeader<GpuBackendReq>,
     ) -> io::Result<V> {
+        #[cfg(feature = "verif-hooks")]
+        crate::vhost_user::verif_hooks::hold(
+            "gpu_backend_req.recv_reply",
+            hdr.get_code().map_or(0, |c| u64::from(u32::from(c))),
+        );
         self.check_state()?;
         let (reply, body, rfds) = self
             .sock
